@@ -81,9 +81,37 @@ def no_unknowns(F, R, names, rule='U0'):
         if v is None:
             continue
         m = model(F, v)
-        for vg, label in ((m.up_vg, 'update'), (m.last_vg, 'last')):
+        vgs = [(m.up_vg, 'update'), (m.last_vg, 'last')]
+        # constructors too: the initial state the rules start from must be the real one
+        vgs += [(mm['vg'], mm['fn'].name) for mm in m.ctor_models if mm.get('vg') is not None]
+        for vg, label in vgs:
             for what, where in vg.unknowns:
                 R.violation(rule, '%s:%s:%s' % (n, label, what), 'construct not understood by the value graph (%s): the analysis of %s is incomplete' % (what, n), where)
+        for mm in m.ctor_models:
+            if mm['init'] is None:
+                R.violation(rule, '%s:%s:no-initial-state' % (n, mm['fn'].name), 'the value built by constructor %s is not a struct the value graph can read the initial state from' % mm['fn'].name, v.file)
+        # a `while` loop modelled as one guarded iteration is exact only if its condition is refuted afterwards (decided by the
+        # bounds engine): otherwise the model of the function is incomplete for every property
+        wo = [ev for vg, _ in vgs[:2] for ev in vg.events if ev.kind == 'while-once']
+        if wo:
+            from .e3_bounds import Bounds
+            from .solve import Hyps, entails_h, loop_hyps
+            from .vg import neg_cond
+            B_ = Bounds(F, v)
+            entry_ = B_.pre + B_.houdini()
+            for vg, label in vgs[:2]:
+                ctx_ = B_.ctx(vg)
+                for ev in vg.events:
+                    if ev.kind != 'while-once':
+                        continue
+                    H_ = Hyps(entry_ + [c for c in ev.pc if isinstance(c, tuple)] + loop_hyps(ev.pc, ctx_), ctx_)
+                    try:
+                        ok_ = entails_h(H_, neg_cond(ev.data[0]))
+                    except Exception:
+                        ok_ = False
+                    if not ok_:
+                        from .sir import loc
+                        R.violation(rule, '%s:%s:while-loop' % (n, label), 'a `while` loop that may run more than once is modelled as a single iteration: the analysis of %s is incomplete' % n, loc(ev.node) if ev.node else v.file)
 
 
 def float_cells(fl):
